@@ -15,6 +15,20 @@ sys.path.insert(0, os.environ.get("VERIF_REPO", "/repo"))
 sys.path.insert(0, os.path.dirname(os.path.dirname(os.path.abspath(__file__))))
 
 
+CASE_LIMIT_S = int(os.environ.get("VERIF_CASE_LIMIT", "90"))         # no single case of any harness takes more than a few seconds: a case that runs this long never returns
+
+
+class CaseTimeout(BaseException):
+    """Raised by the alarm when the library does not return from a case (BaseException: not swallowed by `except Exception`)."""
+
+
+def _on_alarm(signum, frame):
+    raise CaseTimeout()
+
+
+CURRENT = [None]
+
+
 class Recorder:
     """Collects evaluations, distinct non-trivial cases, samples and violations of one bounded run."""
 
@@ -31,6 +45,11 @@ class Recorder:
         self.budget_s = budget_s
         self.parts = {}
         self.exhaustive = True
+        self.current = None
+        CURRENT[0] = self
+        if tier != "replay":
+            import signal
+            signal.signal(signal.SIGALRM, _on_alarm)
 
     def out_of_time(self):
         if self.budget_s is not None and time.time() - self.t0 > self.budget_s:
@@ -39,6 +58,10 @@ class Recorder:
         return False
 
     def case(self, part, key, nontrivial=True, sample=None):
+        self.current = (part, key, sample)
+        if self.tier != "replay":
+            import signal
+            signal.setitimer(signal.ITIMER_REAL, CASE_LIMIT_S)      # re-armed at every case
         self.evaluations += 1
         self.parts[part] = self.parts.get(part, 0) + 1
         if nontrivial:
@@ -87,14 +110,36 @@ def main(module):
         real_stdout = sys.stdout
         sys.stdout = sys.stderr          # whatever the library prints must not mix with the JSON result
         try:
-            res = module.run(tier, seed)
+            try:
+                res = module.run(tier, seed)
+            except CaseTimeout:
+                # the library did not return from the case that was running: report it and stop (nothing after it can be run)
+                rec = CURRENT[0]
+                part, key, sample = rec.current if rec and rec.current else ("?", None, None)
+                rec.exhaustive = False
+                rec.violation(part, "the operation did not return within %d s" % CASE_LIMIT_S,
+                              dict(timeout=True, part=part, key=repr(key)[:2000], sample=sample, tier=tier, seed=seed),
+                              "every operation on a small tree returns (no endless loop)", observed="no return after %d s" % CASE_LIMIT_S)
+                res = rec.result("INTERRUPTED by a case that did not return; cases before it were evaluated as usual")
+            finally:
+                import signal
+                signal.setitimer(signal.ITIMER_REAL, 0)
         finally:
             sys.stdout = real_stdout
         json.dump(res, sys.stdout, default=str)
         return 0
     if mode == "replay":
         case = json.load(open(sys.argv[2]))
-        ok, msg = module.replay(case["case"] if "case" in case else case)
+        inner = case["case"] if "case" in case else case
+        if isinstance(inner, dict) and inner.get("timeout"):
+            # a case that did not return: run the harness again with the same tier and seed and see whether it is interrupted again
+            import subprocess
+            p = subprocess.run([sys.executable, os.path.abspath(sys.argv[0]), "run", inner.get("tier", "quick"), str(inner.get("seed", 0))],
+                               capture_output=True, text=True, env=os.environ.copy())
+            again = "did not return" in p.stdout
+            print("REPRODUCED: a case of part %s does not return" % inner.get("part") if again else "not reproduced")
+            return 1 if again else 0
+        ok, msg = module.replay(inner)
         print(msg)
         return 0 if ok else 1
     return 3
